@@ -88,7 +88,10 @@ class _AWQFinder(importlib.abc.MetaPathFinder):
 _setup_done = False
 
 
-def setup(threads=1):
+LIB = None
+
+
+def setup(threads=1, inject_ext=True):
     """Import torch + optimum.quanto from REPO. Returns the optimum.quanto module."""
     global _setup_done
     if not _setup_done:
@@ -108,6 +111,10 @@ def setup(threads=1):
     got = os.path.realpath(oq.__file__)
     if not got.startswith(REPO + os.sep):
         raise RuntimeError(f"optimum.quanto imported from {got}, expected under {REPO}")
+    if inject_ext and LIB is None:
+        # every check runs the library with its compiled unpack kernel (as a user with ninja would);
+        # without it each unpack call would try to build the extension, warn and fall back to python
+        inject_cpp_ext()
     return oq
 
 
@@ -204,7 +211,10 @@ class CountingLib:
 
 def inject_cpp_ext():
     """Build + load the compiled kernel and make the library use it. Returns the CountingLib."""
-    setup()
+    global LIB
+    if LIB is not None:
+        return LIB
+    setup(inject_ext=False)
     so, name = build_cpp_ext()
     spec = importlib.util.spec_from_file_location(name, so)
     mod = importlib.util.module_from_spec(spec)
@@ -213,4 +223,5 @@ def inject_cpp_ext():
 
     lib = CountingLib(mod)
     cpp_pkg.ext._lib = lib
+    LIB = lib
     return lib
